@@ -335,4 +335,28 @@ example : valItems (applyOp exB.1 exA.2 (.append ["check"] "X")) (classAttr exB.
   decide
 example : wfB exHeap = true ∧ classOKB exHeap exCls = true := by decide
 
+/-! ## Nested attribute values and default constructor arguments (non-vacuity)
+
+A tuple is an immutable node with edges to mutable children (`Kind.tuple`): `deepcopy` treats it like any other node,
+so `copy_fresh` / `copy_observationally_equal` / the frame theorems cover `m.bounds = ([lo], [hi])`, namedtuples
+holding dicts, tuples of arrays.  `Linker()` without `submodels` gets a new dict (`stageLinker`), so
+`siblings_disjoint` covers linkers built with default arguments. -/
+
+def exTup : Heap := applyOp exB.1 exA.2 (.buildAttr "bounds"
+  [([], "bounds", .tuple, []), (["bounds"], "0", .list, [("0", .str "lo")]), (["bounds"], "1", .list, [("0", .str "hi")])])
+
+set_option maxRecDepth 8000 in
+example : (match copyRoot [exCls] exTup exA.2 with
+    | some (h1, c) =>
+      decide ((nav h1 c ["bounds", "0"]).isSome ∧ nav h1 c ["bounds", "0"] ≠ nav h1 exA.2 ["bounds", "0"] ∧
+        nav h1 c ["bounds"] ≠ nav h1 exA.2 ["bounds"] ∧
+        (nav h1 c ["bounds", "1"]).map (fun l => valItems h1 (.ref l)) = some ["hi"])
+    | none => false) = true := by decide
+
+def exLCls : ClassDesc := ⟨.linker, false, false, 2⟩
+def exL1 := newInst 1 exLCls exHeap (.imm (.range 0)) (.imm .none)
+def exL2 := newInst 1 exLCls exL1.1 (.imm (.range 0)) (.imm .none)
+example : (nav exL2.1 exL1.2 ["submodels"]).isSome ∧ (nav exL2.1 exL2.2 ["submodels"]).isSome ∧
+    nav exL2.1 exL1.2 ["submodels"] ≠ nav exL2.1 exL2.2 ["submodels"] := by decide
+
 end Fsic.C11
